@@ -35,6 +35,20 @@ def typedVar (t : PyTy) (min : Nat) (args : List Val) : M Unit :=
   if args.length < min then .error .invalidArguments
   else if args.all (fun v => isInstance v t) then .ok () else .error .invalidArguments
 
+def sigOf (t : Ty) (name : Str) : Option MSig :=
+  match EvalTables.methodSigs.find? (fun e => e.1 = t ∧ e.2.1 = name) with
+  | some e => some e.2.2
+  | none => none
+
+/-- the positional-argument check of method `name` of holder `t`, as the REGENERATED signature
+table prescribes it -/
+def argCheck (t : Ty) (name : Str) (args : List Val) : M Unit :=
+  match sigOf t name with
+  | some .noPos => noPos args
+  | some (.pos req opt) => typedPos req opt args
+  | some (.var ty min) => typedVar ty min args
+  | none => .error .unsupported
+
 def strArgs (args : List Val) : List Str := args.filterMap (fun v => match v with | .str s => some s | _ => none)
 
 /-- insertion sort by code points (`sorted(list_of_str)`) -/
@@ -59,13 +73,13 @@ def stringifyArgs : List Val → Option (List Str)
 def strMethod (s : Str) (name : Str) (raw : List Val) (kw : List (Str × Val)) : M Val :=
   let args := flattenL raw
   if name = cs!"contains" then do
-    noKw kw; typedPos [.str] [] args
+    noKw kw; argCheck .str cs!"contains" args
     match args with | [.str p] => pure (.bool (hasSub p s)) | _ => throw .unsupported
   else if name = cs!"startswith" then do
-    noKw kw; typedPos [.str] [] args
+    noKw kw; argCheck .str cs!"startswith" args
     match args with | [.str p] => pure (.bool (p.isPrefixOf s)) | _ => throw .unsupported
   else if name = cs!"endswith" then do
-    noKw kw; typedPos [.str] [] args
+    noKw kw; argCheck .str cs!"endswith" args
     match args with | [.str p] => pure (.bool (endsWith s p)) | _ => throw .unsupported
   else if name = cs!"format" then do
     noKw kw                                   -- noArgsFlattening: the raw arguments
@@ -75,42 +89,42 @@ def strMethod (s : Str) (name : Str) (raw : List Val) (kw : List (Str × Val)) :
       | some r => pure (.str r)
       | none => throw .invalidArguments
   else if name = cs!"splitlines" then do
-    noKw kw; noPos args; pure (.arr ((splitLines s).map .str))
+    noKw kw; argCheck .str cs!"splitlines" args; pure (.arr ((splitLines s).map .str))
   else if name = cs!"join" then do
-    noKw kw; typedVar .str 0 args; pure (.str (joinStr s (strArgs args)))
+    noKw kw; argCheck .str cs!"join" args; pure (.str (joinStr s (strArgs args)))
   else if name = cs!"replace" then do
-    noKw kw; typedPos [.str, .str] [] args
+    noKw kw; argCheck .str cs!"replace" args
     match args with | [.str a, .str b] => pure (.str (replaceStr s a b)) | _ => throw .unsupported
   else if name = cs!"split" then do
-    noKw kw; typedPos [] [.str] args
+    noKw kw; argCheck .str cs!"split" args
     match args with
     | [] => pure (.arr ((splitWs s).map .str))
     | [.str d] => if d.isEmpty then throw .invalidArguments else pure (.arr ((splitOn s d).map .str))
     | _ => throw .unsupported
   else if name = cs!"strip" then do
-    noKw kw; typedPos [] [.str] args
+    noKw kw; argCheck .str cs!"strip" args
     match args with
     | [] => pure (.str (strip s))
     | [.str c] => pure (.str (stripChars s c))
     | _ => throw .unsupported
   else if name = cs!"substring" then do
-    noKw kw; typedPos [] [.int, .int] args
+    noKw kw; argCheck .str cs!"substring" args
     match args.map asInt with
     | [] => pure (.str s)
     | [some a] => pure (.str (sliceList s (some a) none 1))
     | [some a, some b] => pure (.str (sliceList s (some a) (some b) 1))
     | _ => throw .unsupported
   else if name = cs!"to_int" then do
-    noKw kw; noPos args
+    noKw kw; argCheck .str cs!"to_int" args
     match parseInt s with | some i => pure (.int i) | none => throw .invalidArguments
   else if name = cs!"to_lower" then do
-    noKw kw; noPos args; pure (.str (s.map lowerC))
+    noKw kw; argCheck .str cs!"to_lower" args; pure (.str (s.map lowerC))
   else if name = cs!"to_upper" then do
-    noKw kw; noPos args; pure (.str (s.map upperC))
+    noKw kw; argCheck .str cs!"to_upper" args; pure (.str (s.map upperC))
   else if name = cs!"underscorify" then do
-    noKw kw; noPos args; pure (.str (underscorify s))
+    noKw kw; argCheck .str cs!"underscorify" args; pure (.str (underscorify s))
   else if name = cs!"version_compare" then do
-    noKw kw; typedVar .str 1 args
+    noKw kw; argCheck .str cs!"version_compare" args
     pure (.bool (MesonModel.Version.versionCompareMany s (strArgs args)).1)
   else throw .unsupported
 
@@ -123,12 +137,12 @@ def kwInt (kw : List (Str × Val)) (k : Str) (dflt : Int) : M Int :=
 
 def arrMethod (l : List Val) (name : Str) (raw : List Val) (kw : List (Str × Val)) : M Val :=
   if name = cs!"contains" then do
-    noKw kw; typedPos [.object] [] raw
+    noKw kw; argCheck .arr cs!"contains" raw
     match raw with | [x] => pure (.bool (containsDeep x l)) | _ => throw .unsupported
   else if name = cs!"length" then do
-    noKw kw; noPos (flattenL raw); pure (.int l.length)
+    noKw kw; argCheck .arr cs!"length" (flattenL raw); pure (.int l.length)
   else if name = cs!"get" then do
-    noKw kw; typedPos [.int] [.object] raw
+    noKw kw; argCheck .arr cs!"get" raw
     match raw with
     | [i] => match asInt i with
       | some i => match pyIndex l i with
@@ -145,7 +159,7 @@ def arrMethod (l : List Val) (name : Str) (raw : List Val) (kw : List (Str × Va
     let args := flattenL raw
     if kw.any (fun e => e.1 != cs!"step") then throw .invalidArguments
     let step ← kwInt kw cs!"step" 1
-    typedPos [] [.int, .int] args
+    argCheck .arr cs!"slice" args
     match args.map asInt with
     | [] => if step = 0 then throw .invalidArguments else pure (.arr (sliceList l none none step))
     | [some _] => throw .invalidArguments
@@ -153,20 +167,20 @@ def arrMethod (l : List Val) (name : Str) (raw : List Val) (kw : List (Str × Va
       if step = 0 then throw .invalidArguments else pure (.arr (sliceList l (some a) (some b) step))
     | _ => throw .unsupported
   else if name = cs!"flatten" then do
-    noPos (flattenL raw); noKw kw; pure (.arr (flattenL l))
+    argCheck .arr cs!"flatten" (flattenL raw); noKw kw; pure (.arr (flattenL l))
   else throw .unsupported
 
 def dictMethod (d : List (Str × Val)) (name : Str) (raw : List Val) (kw : List (Str × Val)) : M Val :=
   if name = cs!"has_key" then do
-    noKw kw; typedPos [.str] [] (flattenL raw)
+    noKw kw; argCheck .dict cs!"has_key" (flattenL raw)
     match flattenL raw with | [.str k] => pure (.bool (hasKey k d)) | _ => throw .unsupported
   else if name = cs!"keys" then do
-    noKw kw; noPos (flattenL raw); pure (.arr ((dictKeysSorted d).map .str))
+    noKw kw; argCheck .dict cs!"keys" (flattenL raw); pure (.arr ((dictKeysSorted d).map .str))
   else if name = cs!"values" then do
-    noKw kw; noPos (flattenL raw)
+    noKw kw; argCheck .dict cs!"values" (flattenL raw)
     pure (.arr ((dictKeysSorted d).filterMap (fun k => lookup k d)))
   else if name = cs!"get" then do
-    noKw kw; typedPos [.str] [.object] raw
+    noKw kw; argCheck .dict cs!"get" raw
     match raw with
     | [.str k] => match lookup k d with
       | some v => pure v
@@ -180,9 +194,9 @@ def dictMethod (d : List (Str × Val)) (name : Str) (raw : List Val) (kw : List 
 def intMethod (i : Int) (name : Str) (raw : List Val) (kw : List (Str × Val)) : M Val :=
   let args := flattenL raw
   if name = cs!"is_even" then do
-    noKw kw; noPos args; pure (.bool (pyMod i 2 == 0))
+    noKw kw; argCheck .int cs!"is_even" args; pure (.bool (pyMod i 2 == 0))
   else if name = cs!"is_odd" then do
-    noKw kw; noPos args; pure (.bool (pyMod i 2 != 0))
+    noKw kw; argCheck .int cs!"is_odd" args; pure (.bool (pyMod i 2 != 0))
   else if name = cs!"to_string" then do
     if kw.any (fun e => e.1 != cs!"fill" && e.1 != cs!"format") then throw .invalidArguments
     let fill ← match lookup cs!"fill" kw with
@@ -196,16 +210,16 @@ def intMethod (i : Int) (name : Str) (raw : List Val) (kw : List (Str × Val)) :
         if f == cs!"dec" || f == cs!"hex" || f == cs!"oct" || f == cs!"bin" then pure f
         else throw .invalidArguments
       | some _ => throw .invalidArguments
-    noPos args
+    argCheck .int cs!"to_string" args
     pure (.str (intFormat i fill.toNat fmt))
   else throw .unsupported
 
 def boolMethod (b : Bool) (name : Str) (raw : List Val) (kw : List (Str × Val)) : M Val :=
   let args := flattenL raw
   if name = cs!"to_int" then do
-    noKw kw; noPos args; pure (.int (if b then 1 else 0))
+    noKw kw; argCheck .bool cs!"to_int" args; pure (.int (if b then 1 else 0))
   else if name = cs!"to_string" then do
-    noKw kw; typedPos [] [.str, .str] args
+    noKw kw; argCheck .bool cs!"to_string" args
     match args with
     | [] => pure (.str (if b then cs!"true" else cs!"false"))
     | [.str t, .str f] =>
@@ -214,6 +228,22 @@ def boolMethod (b : Bool) (name : Str) (raw : List Val) (kw : List (Str × Val))
       pure (.str (if b then t' else f'))
     | [_] => throw .invalidArguments
     | _ => throw .unsupported
+  else throw .unsupported
+
+/-- `SubprojectHolder.get_variable_method` / `found_method` (an enabled subproject) -/
+def subprojMethod (vars : List (Str × Val)) (name : Str) (raw : List Val) (kw : List (Str × Val)) : M Val :=
+  if name = cs!"get_variable" then do
+    noKw kw; argCheck .subproj cs!"get_variable" raw
+    match raw with
+    | [.str k] => match lookup k vars with
+      | some v => pure v
+      | none => throw .invalidArguments
+    | [.str k, dflt] => match lookup k vars with
+      | some v => pure v
+      | none => pure dflt
+    | _ => throw .unsupported
+  else if name = cs!"found" then do
+    argCheck .subproj cs!"found" (flattenL raw); noKw kw; pure (.bool true)
   else throw .unsupported
 
 /-- `obj.method_call(name, args, kwargs)` on a holder -/
@@ -226,5 +256,6 @@ def methodCall (self : Val) (name : Str) (args : List Val) (kw : List (Str × Va
     | .int i => intMethod i name args kw
     | .bool b => boolMethod b name args kw
     | .range .. => .error .unsupported
+    | .subproj _ vars => subprojMethod vars name args kw
 
 end MesonModel.Eval
